@@ -3,6 +3,7 @@
 -/
 import Stgutg.Model.NasCtor
 import Stgutg.Proofs.NasCodec
+import Stgutg.Spec.NasCtorIntended
 namespace Stgutg.Nas.Ctor
 open Stgutg Stgutg.Nas
 
@@ -17,3 +18,72 @@ theorem bufIE_eq (s : Shape) (iei w : Nat) (c : Bytes) (cp : CopySet) (h1 : s.ha
     Shape.zero, toNat_ofNat_lt hi]
 
 end Stgutg.Nas.Ctor
+
+namespace Stgutg.Props.C09
+open Stgutg Stgutg.Nas Stgutg.Spec.Ts24501 Stgutg.Gen.Nas Stgutg.Gen
+
+/-! closed evaluations of the constructor model (kernel `decide` over the one-octet arguments) and small algebra -/
+
+theorem copyInto_same (n : Nat) (c : Bytes) (h : c.length = n) : Ctor.copyInto (List.replicate n 0) c = c := by
+  subst h; exact Ctor.copyInto_replicate c
+
+theorem deregBase_eval : ∀ acc < 4, ∀ sw < 2, ∀ k < 4,
+    Ctor.deregistrationRequestBase (UInt8.ofNat acc) (UInt8.ofNat sw) (UInt8.ofNat (2 * k)) =
+      .ok [some ⟨0, 0, [0x7E]⟩, some ⟨0, 0, [0x00]⟩, some ⟨0, 0, [0x45]⟩,
+           some ⟨0, 0, Intended.halves (Intended.deregType sw 0 acc) (Intended.ngKSI 0 (2 * k))⟩, some ⟨0, 0, []⟩] := by
+  decide +kernel
+
+
+def regBaseMsg (rt : Nat) : Msg :=
+  [some ⟨0, 0, [0x7E]⟩, some ⟨0, 0, [0x00]⟩, some ⟨0, 0, [0x41]⟩,
+   some ⟨0, 0, Intended.halves (Intended.regType 1 rt) (Intended.ngKSI 0 7)⟩, some ⟨0, 0, []⟩] ++ List.replicate 20 none
+
+theorem regReqBase_eval : ∀ rt < 8, Ctor.registrationRequestBase (UInt8.ofNat rt) = .ok (regBaseMsg rt) := by
+  decide +kernel
+
+
+theorem u8_and_255_aux : ∀ x < 256, (UInt8.ofNat x &&& (255 : UInt8)) = UInt8.ofNat x := by decide +kernel
+theorem u8_and_255 (x : UInt8) : x &&& (255 : UInt8) = x := by
+  have := u8_and_255_aux x.toNat x.toNat_lt
+  simpa using this
+
+theorem ulHead_eval : ∀ psi < 256, Ctor.ulHead (UInt8.ofNat psi) =
+    .ok [some ⟨0, 0, [0x7E]⟩, some ⟨0, 0, [0x00]⟩, some ⟨0, 0, [0x67]⟩, some ⟨0, 0, [0x00]⟩, some ⟨0, 0, []⟩,
+         some ⟨0x12, 0, [UInt8.ofNat psi]⟩, none, none, none, none, none] := by
+  decide +kernel
+
+theorem ulRequestType_eval : ∀ rt < 8, Ctor.ulRequestTypeIE (UInt8.ofNat rt) = .ok ⟨0, 0, [UInt8.ofNat (0x80 + rt)]⟩ := by
+  decide +kernel
+
+theorem ulSnssai_eval (sst : UInt8) (a b c : UInt8) :
+    Ctor.ulSnssaiIE ⟨sst, [a, b, c]⟩ = .ok ⟨0x22, 4, [sst, a, b, c, 0, 0, 0, 0]⟩ := by
+  simp [Ctor.ulSnssaiIE, Ctor.bits, NasSet.SNSSAI.SetSST, Ctor.setLen, newVal, sh_SNSSAI, Shape.zero, Body.size,
+    List.replicate, u8_and_255, Ctor.copyAt, Ctor.copyInto]
+
+theorem ulTail_eval (m : Msg) (payload : Bytes) (h3 : m[3]? = some (some ⟨0, 0, [0x00]⟩)) (h4 : m[4]? = some (some ⟨0, 0, []⟩))
+    (hp : payload.length < 65536) :
+    Ctor.ulTail m payload = .ok ((m.set 3 (some ⟨0, 0, [0x01]⟩)).set 4 (some ⟨0, payload.length, payload⟩)) := by
+  have hb : Ctor.bits NasSet.SpareHalfOctetAndPayloadContainerType.SetPayloadContainerType 1 ⟨0, 0, [0x00]⟩ = .ok ⟨0, 0, [0x01]⟩ := by
+    decide +kernel
+  have h4' : (m.set 3 (some ⟨0, 0, [0x01]⟩))[4]? = some (some ⟨0, 0, []⟩) := by
+    rw [List.getElem?_set_ne (by decide)]; exact h4
+  simp [Ctor.ulTail, Ctor.updF, idx_ULNASTransport_SpareHalfOctetAndPayloadContainerType, idx_ULNASTransport_PayloadContainer,
+    h3, hb, h4', Ctor.ok1, Ctor.setContents, Ctor.setLenBuf, Nat.mod_eq_of_lt hp, Ctor.copyInto_replicate]
+
+theorem dnnLabels_go_nodot (cur s : Bytes) (h : ∀ c ∈ s, c ≠ 0x2E) :
+    Intended.dnnLabels.go cur s = Intended.u8 (cur ++ s).length :: (cur ++ s) := by
+  induction s generalizing cur with
+  | nil => simp [Intended.dnnLabels.go]
+  | cons c rest ih =>
+    have hc : c ≠ 0x2E := h c (by simp)
+    simp only [Intended.dnnLabels.go, hc, if_false]
+    rw [ih (cur ++ [c]) (fun x hx => h x (by simp [hx]))]
+    simp
+
+theorem dnnLabels_nodot (s : Bytes) (h : ∀ c ∈ s, c ≠ 0x2E) : Intended.dnnLabels s = Intended.u8 s.length :: s := by
+  have := dnnLabels_go_nodot [] s h
+  simp at this
+  simpa [Intended.dnnLabels] using this
+
+
+end Stgutg.Props.C09
